@@ -67,6 +67,11 @@ CHECKS = {
  "C21": (MC, "6/C21", "TLC judge (JudgeCalls/Contract!ContractOK): every resolver call of real runs judged against the abstract schema",
          "Every resolver call of the real engine (type, field, coercion target, parameters, concrete types of active vertices) is judged by TLC against Contract!ContractOK.",
          "Same universe as C01; trusts the CallLog wrapper."),
+ "C22": (MC, "6/C22", "TLC judge: rows of the real engine = Sem.tla (which never terminates a fold early) on the systematic fold-count sub-universe; Interp's fold stage with the max/min stopping rules checked against the same rows",
+         "gen/foldfam.py enumerates count-filter operator x argument (-1, 0, 1, 2, 3, u64::MAX, lists, pairs of bounds) x 11 classes of what observes the fold (nothing, count output, outputs inside, nested fold outputs/count, "
+         "the tagged count used in a parent filter, a sibling fold, a nested scope of a sibling fold, another count filter) x fold sizes 0..4, at top level and under @optional; TLC compares each real row bag with Sem. "
+         "Model level: Interp.tla's FoldCollect (stop at max+1, stop at min only when nothing observes the fold) yields the same rows on a sample.",
+         "Bounded to the enumerated classes plus the random universe's count-filter queries."),
 }
 NOT_YET ="check not built yet at this commit (see DESIGN.md section 6 for the planned decision procedure)"
 
